@@ -130,11 +130,17 @@ def _polytope_sweep(arg):
     kind, levels = arg
     from molgri.space.polytopes import Cube4DPolytope, IcosahedronPolytope, Cube3DPolytope
     res = Result()
-    with quiet():
-        p = {"cube4D": Cube4DPolytope, "ico": IcosahedronPolytope, "cube3D": Cube3DPolytope}[kind]()
-        for _ in range(levels):
-            p.divide_edges()
-        full = np.asarray(p.get_half_of_hypercube(projection=True) if kind == "cube4D" else p.get_nodes(projection=True))
+    try:
+        with quiet():
+            p = {"cube4D": Cube4DPolytope, "ico": IcosahedronPolytope, "cube3D": Cube3DPolytope}[kind]()
+            for _ in range(levels):
+                p.divide_edges()
+            full = np.asarray(p.get_half_of_hypercube(projection=True) if kind == "cube4D" else p.get_nodes(projection=True))
+    except Exception as e:
+        case = {"polytope": kind, "levels": levels, "N": 0}
+        res.case(sample=case, nontrivial=True, key=case, classes=["polytope_prefix_sweep"])
+        res.violation(case, f"{kind} polytope: subdividing to level {levels} raised {type(e).__name__}: {e}")
+        return res
     step = 1 if kind == "cube4D" else 7
     for N in list(range(1, len(full) + 1, step)) + [len(full)]:
         case = {"polytope": kind, "levels": levels, "N": N}
